@@ -79,7 +79,10 @@ func canonSchema(s *ast.Schema) string {
 		SchemaDirs []string
 		Desc       string
 	}
-	js := func(v interface{}) string { b, _ := json.Marshal(v); return string(b) }
+	raw := func(v interface{}) string { b, _ := json.Marshal(v); return string(b) }
+	// sort keys do not distinguish a block string from a quoted string of equal value (a reloaded
+	// schema has the one where the original had the other; the order must come out the same)
+	js := func(v interface{}) string { return strings.ReplaceAll(raw(v), `"k":"Block"`, `"k":"String"`) }
 	c := canon{Possible: map[string][]string{}, Implements: map[string][]string{}, Desc: s.Description}
 	var names []string
 	for n := range s.Types {
@@ -127,10 +130,12 @@ func canonSchema(s *ast.Schema) string {
 	rel(s.PossibleTypes, c.Possible)
 	rel(s.Implements, c.Implements)
 	for _, d := range proj.Directives(s.SchemaDirectives) {
-		c.SchemaDirs = append(c.SchemaDirs, js(d))
+		c.SchemaDirs = append(c.SchemaDirs, raw(d))
 	}
-	sort.Strings(c.SchemaDirs)
-	return js(c)
+	sort.Slice(c.SchemaDirs, func(i, j int) bool {
+		return strings.ReplaceAll(c.SchemaDirs[i], `"k":"Block"`, `"k":"String"`) < strings.ReplaceAll(c.SchemaDirs[j], `"k":"Block"`, `"k":"String"`)
+	})
+	return raw(c)
 }
 
 func c17Eval(c c17Case) (viol string, loaded bool) {
